@@ -148,6 +148,8 @@ pub use checker::*;
 pub use has_discoveries::HasDiscoveries;
 pub mod semantics;
 pub mod util;
+#[cfg(getong_stateright_verif)]
+pub mod verif;
 
 /// This is the primary abstraction for Stateright. Implementations model a
 /// nondeterministic system's evolution. If you are using Stateright's actor framework,
